@@ -437,15 +437,6 @@ theorem bkeep_writeSignal (S : Strs) (cfg : Cfg) (s : State) (b : Nat) : BKeep s
     · refine BKeep.trans ?_ (bkeep_of_bsame (s.updBackend b _) _ rfl)
       exact bkeep_updBackend s b _ (fun _ => rfl)
 
-theorem bkeep_runTasks (S : Strs) (cfg : Cfg) (s : State) : BKeep s (runTasks S cfg s) := by
-  unfold runTasks
-  have : ∀ (ts : List Nat) (s0 : State), BKeep s0 (ts.foldl (writeSignal S cfg) s0) := by
-    intro ts
-    induction ts with
-    | nil => intro s0; exact BKeep.refl s0
-    | cons t ts ih => intro s0; exact BKeep.trans (bkeep_writeSignal S cfg s0 t) (ih _)
-  exact BKeep.trans (this s.tasks s) (bkeep_of_bsame _ _ rfl)
-
 theorem bkeep_resolve (T : Tables) (S : Strs) (cfg : Cfg) (ty : Nat) (s : State) (vs : List (Nat × Bytes)) (acc : List (Nat × Nat)) :
     BKeep s (resolve T S cfg ty s vs acc).1 := by
   induction vs generalizing s acc with
@@ -804,6 +795,26 @@ theorem frame_backendClose (S : Strs) (s : State) (b : Nat) : Frame s (backendCl
       refine Frame.trans ?_ (frame_of_bsame _ _ (bsame_foldl_dropTimeout _ _) (ext_of_same _ _ (foldl_dropTimeout_same _ _)))
       exact frame_of_bsame _ _ (bsame_failFrags S _ s) (ext_failFrags S _ s)
 
+theorem bsame_poolRemove (s : State) (p : Nat) : BSame s (poolRemove s p) := by
+  unfold poolRemove
+  split
+  · rfl
+  · split <;> rfl
+
+theorem frame_runTasks (S : Strs) (cfg : Cfg) (s : State) : Frame s (runTasks S cfg s) := by
+  unfold runTasks
+  have : ∀ (ts : List Task) (s0 : State), Frame s0 (ts.foldl (runTask S cfg (backendClose S)) s0) := by
+    intro ts
+    induction ts with
+    | nil => intro s0; exact Frame.refl s0
+    | cons t ts ih =>
+      intro s0
+      refine Frame.trans ?_ (ih _)
+      cases t with
+      | write b => exact frame_of_keep _ _ (same_writeSignal S cfg s0 b) (bkeep_writeSignal S cfg s0 b)
+      | close b => exact frame_backendClose S s0 b
+  exact Frame.trans (this s.tasks s) (frame_of_bsame _ _ rfl (ext_of_same _ _ ⟨rfl, rfl⟩))
+
 theorem frame_step (T : Tables) (S : Strs) (cfg : Cfg) (slotFn : Bytes → Nat) (s : State) (e : Event) :
     Frame s (step T S cfg slotFn s e) := by
   unfold step
@@ -818,10 +829,11 @@ theorem frame_step (T : Tables) (S : Strs) (cfg : Cfg) (slotFn : Bytes → Nat) 
       rw [if_pos hlt]; exact h
     | clientBytes c chunk chs => exact frame_clientBytes T S cfg slotFn s c chunk chs
     | clientClose c => exact frame_closeClient s c
-    | runTasks => exact frame_of_keep _ _ (same_runTasks S cfg s) (bkeep_runTasks S cfg s)
+    | runTasks => exact frame_runTasks S cfg s
     | backendBytes b chunk => exact frame_backendBytes T S cfg slotFn s b chunk
     | backendClose b => exact frame_backendClose S s b
     | expire => exact frame_of_bsame _ _ (bsame_expire S s) (ext_expire S s)
+    | poolRemove p => exact frame_of_bsame _ _ (bsame_poolRemove s p) (ext_of_same _ _ (same_poolRemove s p))
 
 theorem dinv_run (T : Tables) (S : Strs) (cfg : Cfg) (slotFn : Bytes → Nat) (es : List Event) (s : State) (h : DInv s) :
     DInv (run T S cfg slotFn s es) := by
@@ -931,16 +943,6 @@ theorem binv_writeSignal (S : Strs) (cfg : Cfg) (s : State) (b : Nat) (hi : BInv
         rw [hyok.queued hop]; simp
       · obtain ⟨ans, ha⟩ := hyok.await hop
         exact ⟨ans, by show (x.sent ++ x.outQ).map (·.ref) = ans ++ (x.inQ ++ x.outQ.map (·.ref)); rw [List.map_append, ha]; simp⟩
-
-theorem binv_runTasks (S : Strs) (cfg : Cfg) (s : State) (hi : BInv s) : BInv (runTasks S cfg s) := by
-  unfold runTasks
-  have : ∀ (ts : List Nat) (s0 : State), BInv s0 → BInv (ts.foldl (writeSignal S cfg) s0) := by
-    intro ts
-    induction ts with
-    | nil => intro s0 h; exact h
-    | cons t ts ih => intro s0 h; exact ih _ (binv_writeSignal S cfg s0 t h)
-  exact binv_of_bsame _ _ rfl (this s.tasks s hi)
-
 
 /-! ### every step keeps `BInv` -/
 
@@ -1163,6 +1165,20 @@ theorem binv_backendClose (S : Strs) (s : State) (b : Nat) (hi : BInv s) : BInv 
       · intro y _ hy
         exact ⟨hy.stream, hy.pre, fun ho => absurd ho (by simp), fun ho => absurd ho (by simp)⟩
 
+theorem binv_runTasks (S : Strs) (cfg : Cfg) (s : State) (hi : BInv s) : BInv (runTasks S cfg s) := by
+  unfold runTasks
+  have : ∀ (ts : List Task) (s0 : State), BInv s0 → BInv (ts.foldl (runTask S cfg (backendClose S)) s0) := by
+    intro ts
+    induction ts with
+    | nil => intro s0 h; exact h
+    | cons t ts ih =>
+      intro s0 h
+      apply ih
+      cases t with
+      | write b => exact binv_writeSignal S cfg s0 b h
+      | close b => exact binv_backendClose S s0 b h
+  exact binv_of_bsame _ _ rfl (this s.tasks s hi)
+
 theorem binv_step (T : Tables) (S : Strs) (cfg : Cfg) (slotFn : Bytes → Nat) (s : State) (e : Event) (hi : BInv s) :
     BInv (step T S cfg slotFn s e) := by
   unfold step
@@ -1176,6 +1192,7 @@ theorem binv_step (T : Tables) (S : Strs) (cfg : Cfg) (slotFn : Bytes → Nat) (
     | backendBytes b chunk => exact binv_backendBytes T S cfg slotFn s b chunk hi
     | backendClose b => exact binv_backendClose S s b hi
     | expire => exact binv_bs (bsame_expire S s) hi
+    | poolRemove p => exact binv_bs (bsame_poolRemove s p) hi
 
 theorem binv_run (T : Tables) (S : Strs) (cfg : Cfg) (slotFn : Bytes → Nat) (es : List Event) (s : State) (h : BInv s) :
     BInv (run T S cfg slotFn s es) := by
